@@ -1,9 +1,10 @@
 """C16 - CML molecules load faithfully.
-The real Atoms.load_cml / Atoms.load(..., 'cml') run against a data-model stub of xml.etree.ElementTree (parse -> getroot ->
-findall('.//atom' | './/bond') -> .attrib); coordinates are symbolic reals carried as placeholder text, the atoms each bond names
-are symbolic indices into the id list (solver-enumerated), id schemes come from a stated list.  In concrete mode (per-path
-cross-validation and replay) the same document is rendered as real CML text and parsed by the real ElementTree from an open
-file and from a path, which also validates the stub."""
+The real Atoms.load_cml / Atoms.load(..., 'cml') run on a document whose TEXT is parsed by the real xml.etree.ElementTree (expat) also in
+symbolic mode: coordinates are symbolic reals carried through the XML text as placeholder tokens (only float() on a token is modelled),
+the atoms each bond names are symbolic indices into the id list (solver-enumerated), id schemes and document layouts (one molecule,
+two molecules in a <cml> wrapper, nested sub-molecule, split arrays) come from stated lists, the spelling of the numbers is an explored
+environment choice.  In concrete mode (per-path cross-validation and replay) the document is rendered in full and parsed from an open
+file and from a path."""
 import io
 import pathlib
 import os
@@ -19,9 +20,9 @@ FUNCTIONS = ['mofun.atoms.Atoms.load_cml', "mofun.atoms.Atoms.load (filetype 'cm
 BOUNDS = {'quick': '1-3 atoms, 0-2 bonds naming any atoms (symbolic), 7 id schemes (sequential, non-sequential, reversed, shuffled, arbitrary '
                    'strings, ids that are prefixes of one another, numeric), coordinates any real in (-1e4, 1e4)',
           'thorough': 'up to 4 atoms and 3 bonds'}
-OUTSIDE = ['the XML text layer itself (expat) in symbolic mode: it is exercised only on the concrete witnesses of every path', 'CML flavours other than Avogadro']
+OUTSIDE = ['the decimal spelling of a number in symbolic mode (a placeholder token stands for any spelling float() accepts; four spellings are rendered on the concrete witnesses: repr, %.17E, explicit plus sign, %.17e)', 'XML namespaces (documents are rendered without xmlns, as the repository fixtures are)']
 ASSUMPTIONS = ['ElementTree data model: findall returns elements in document order with their attributes as strings', 'atom ids unique within a document']
-STUBS = ['xml.etree.ElementTree.parse -> data-model stub (symbolic mode only; concrete mode uses the real parser on rendered text)']
+STUBS = ['xml.etree.ElementTree.parse(handle) -> the REAL ElementTree.fromstring on the document text in which every symbolic number is a placeholder token (symbolic mode); concrete mode: the real parser on the fully rendered text, numbers in the chosen spelling']
 
 ID_SCHEMES = {
     'seq': ['a1', 'a2', 'a3', 'a4'], 'nonseq': ['a7', 'a2', 'a40', 'a11'], 'rev': ['a4', 'a3', 'a2', 'a1'], 'shuffled': ['a3', 'a1', 'a4', 'a2'],
@@ -30,45 +31,24 @@ ID_SCHEMES = {
 ELS = ['C', 'O', 'H', 'Zr']
 
 
-class _El:
-    def __init__(self, attrib):
-        self.attrib = attrib
-
-
-class _Root:
-    def __init__(self, doc):
-        self.doc = doc
-
-    def findall(self, path):
-        if path == './/atom':
-            return [_El(a) for a in self.doc['atoms']]
-        if path == './/bond':
-            return [_El(b) for b in self.doc['bonds']]
-        raise core.Unsupported(f"findall({path!r})")
-
-
-class _Tree:
-    def __init__(self, doc):
-        self.doc = doc
-
-    def getroot(self):
-        return _Root(self.doc)
-
-
 class DocHandle(io.TextIOBase):
-    """what the harness passes as 'the file' in symbolic mode"""
+    """what the harness passes as 'the file' in symbolic mode: the CML text, with every symbolic number as a placeholder token"""
 
-    def __init__(self, doc):
-        self.doc = doc
+    def __init__(self, text):
+        self.text = text
 
 
-def _parse(f):
+def _parse(f, parser=None):
+    # the REAL ElementTree / expat parse the document text (placeholder tokens are ordinary private-use characters inside attribute
+    # values), so find / findall / iter / attrib are the library's own code in symbolic mode too
     if isinstance(f, DocHandle):
-        return _Tree(f.doc)
+        return _ET.ElementTree(_ET.fromstring(f.text))
     raise core.Unsupported("ET.parse of something that is not the harness document")
 
 
-ETSTUB = types.SimpleNamespace(parse=_parse)
+import xml.etree.ElementTree as _ET
+ETSTUB = types.SimpleNamespace(**{k: getattr(_ET, k) for k in dir(_ET) if not k.startswith('__')})
+ETSTUB.parse = _parse
 XML = types.SimpleNamespace(etree=types.SimpleNamespace(ElementTree=ETSTUB))
 
 
@@ -90,6 +70,11 @@ def instances(tier, seed):
     out.append(dict(name="cml:seq:n2:b1:document-in-iso-8859-1", family='cml', scheme='seq', n=2, nb=1, encoding='ISO-8859-1', cost=5))
     out.append(dict(name="cml:rev:n2:b0:document-in-utf-16", family='cml', scheme='rev', n=2, nb=0, encoding='UTF-16', cost=5))
     out.append(dict(name="cml:strings:n3:b0", family='cml', scheme='strings', n=3, nb=0, cost=1))
+    # documents whose atom / bond entries are spread over several arrays, molecules or nesting levels: still one atom per atom entry
+    out.append(dict(name="cml:seq:n3:b2:two-molecules-in-a-cml-wrapper", family='cml', scheme='seq', n=3, nb=2, layout='two-molecules', cost=60))
+    out.append(dict(name="cml:nonseq:n3:b1:nested-sub-molecule", family='cml', scheme='nonseq', n=3, nb=1, layout='nested', cost=20))
+    out.append(dict(name="cml:rev:n2:b2:arrays-split", family='cml', scheme='rev', n=2, nb=2, layout='arrays-split', cost=20))
+    out.append(dict(name="cml:strings:n2:b0:two-molecules-in-a-cml-wrapper", family='cml', scheme='strings', n=2, nb=0, layout='two-molecules', cost=2))
     out.append(dict(name="cml:nonseq:n2:b0", family='cml', scheme='nonseq', n=2, nb=0, cost=1))
     if tier == 'thorough':
         out.append(dict(name="cml:shuffled:n4:b2", family='cml', scheme='shuffled', n=4, nb=2, cost=300))
@@ -97,19 +82,56 @@ def instances(tier, seed):
     return out
 
 
-def render(doc_atoms, doc_bonds, encoding='UTF-8', title=None):
-    s = ['<?xml version="1.0" encoding="%s"?>' % encoding, '<molecule xmlns="http://www.xml-cml.org/schema"%s>' % (' title="%s"' % title if title else ''), ' <atomArray>']
-    for a in doc_atoms:
-        two_d = ''.join(' %s="%s"' % (k, a[k]) for k in ('x2', 'y2', 'hydrogenCount') if k in a)
-        s.append('  <atom id="%s" elementType="%s" x3="%s" y3="%s" z3="%s"%s/>' % (a['id'], a['elementType'], a['x3'], a['y3'], a['z3'], two_d))
-    s.append(' </atomArray>')
+def _atom_line(a):
+    two_d = ''.join(' %s="%s"' % (k, a[k]) for k in ('x2', 'y2', 'hydrogenCount') if k in a)
+    return '  <atom id="%s" elementType="%s" x3="%s" y3="%s" z3="%s"%s/>' % (a['id'], a['elementType'], a['x3'], a['y3'], a['z3'], two_d)
+
+
+def _arrays(doc_atoms, doc_bonds, ind=' '):
+    s = []
+    if doc_atoms:
+        s += [ind + '<atomArray>'] + [ind + _atom_line(a) for a in doc_atoms] + [ind + '</atomArray>']
     if doc_bonds:
-        s.append(' <bondArray>')
-        for b in doc_bonds:
-            s.append('  <bond atomRefs2="%s" order="%s"/>' % (b['atomRefs2'], b['order']))
-        s.append(' </bondArray>')
-    s.append('</molecule>')
-    return '\n'.join(s).replace(' xmlns="http://www.xml-cml.org/schema"', '')
+        s += [ind + '<bondArray>'] + [ind + '  <bond atomRefs2="%s" order="%s"/>' % (b['atomRefs2'], b['order']) for b in doc_bonds] + [ind + '</bondArray>']
+    return s
+
+
+def render(doc_atoms, doc_bonds, encoding='UTF-8', title=None, layout='flat'):
+    """CML text of the document.  layouts: 'flat' (one molecule, one atomArray, one bondArray - what Avogadro writes);
+    'two-molecules' (a <cml> wrapper holding two <molecule> fragments, the atoms / bonds split between them in document order);
+    'nested' (a molecule with a sub-molecule: the later atoms and bonds sit one level deeper);
+    'arrays-split' (one molecule, two atomArray and two bondArray elements)"""
+    head = '<?xml version="1.0" encoding="%s"?>' % encoding
+    tattr = ' title="%s"' % title if title else ''
+    ka, kb = (len(doc_atoms) + 1) // 2, (len(doc_bonds) + 1) // 2
+    if layout == 'flat':
+        s = [head, '<molecule%s>' % tattr] + _arrays(doc_atoms, doc_bonds) + ['</molecule>']
+    elif layout == 'two-molecules':
+        s = [head, '<cml%s>' % tattr, ' <molecule id="m1">'] + _arrays(doc_atoms[:ka], doc_bonds[:kb], '  ') + [' </molecule>', ' <molecule id="m2">'] \
+            + _arrays(doc_atoms[ka:], doc_bonds[kb:], '  ') + [' </molecule>', '</cml>']
+    elif layout == 'nested':
+        s = [head, '<molecule%s>' % tattr] + _arrays(doc_atoms[:ka], doc_bonds[:kb]) + [' <molecule id="sub">'] + _arrays(doc_atoms[ka:], doc_bonds[kb:], '  ') \
+            + [' </molecule>', '</molecule>']
+    elif layout == 'arrays-split':
+        s = [head, '<molecule%s>' % tattr] + _arrays(doc_atoms[:ka], []) + _arrays(doc_atoms[ka:], []) + _arrays([], doc_bonds[:kb]) + _arrays([], doc_bonds[kb:]) + ['</molecule>']
+    else:
+        raise ValueError(layout)
+    return '\n'.join(s)
+
+
+SPELLINGS = ['repr', 'exponent-upper-case-E', 'explicit-plus-sign', 'exponent-lower-case-e']
+
+
+def spell(x, k):
+    """decimal text of a double; every spelling is a valid xsd:double and parses back to exactly x with float()"""
+    x = float(x)
+    if k == 1:
+        return '%.17E' % x
+    if k == 2:
+        return ('+' if x >= 0 else '') + repr(x)
+    if k == 3:
+        return '%.17e' % x
+    return repr(x)
 
 
 def body(ctx, p):
@@ -120,22 +142,29 @@ def body(ctx, p):
     xyz = [[ctx.real(f"x{i}{c}", -10000, 10000) for c in 'xyz'] for i in range(n)]
     ends = [[ctx.int(f"b{j}_{c}", 0, n - 1) for c in range(2)] for j in range(nb)]
     orders = [1, 2, 1.5][:nb]
+    layout = p.get('layout', 'flat')
     if ctx.sym:
         fm = ctx.ms.fmtmodel
         atoms = [dict(id=ids[i], elementType=els[i], x3=fm.exact_token(xyz[i][0]), y3=fm.exact_token(xyz[i][1]), z3=fm.exact_token(xyz[i][2])) for i in range(n)]
     else:
-        atoms = [dict(id=ids[i], elementType=els[i], x3=repr(xyz[i][0]), y3=repr(xyz[i][1]), z3=repr(xyz[i][2])) for i in range(n)]
+        atoms = [dict(id=ids[i], elementType=els[i]) for i in range(n)]
     if p.get('with2d'):
         # files written by molecule editors carry the 2-D depiction next to the 3-D coordinates; the 3-D ones are the stated coordinates
         for i, d_ in enumerate(atoms):
             d_.update(x2=str(3.25 + i), y2=str(-1.5 - 2 * i), hydrogenCount='0')
     bonds = [dict(atomRefs2=f"{ids[int(e[0])]} {ids[int(e[1])]}", order=str(orders[j])) for j, e in enumerate(ends)]
+    # how the document spells its numbers is an environment choice (explored like every other one): in symbolic mode a number is a
+    # placeholder token whatever the spelling, on the concrete witnesses the real text is rendered in the chosen spelling
+    sp = ctx.choose(len(SPELLINGS), 'number-spelling')
+    if not ctx.sym:
+        for i in range(n):
+            atoms[i].update(x3=spell(xyz[i][0], sp), y3=spell(xyz[i][1], sp), z3=spell(xyz[i][2], sp))
     if ctx.sym:
-        a = Atoms.load_cml(DocHandle(dict(atoms=atoms, bonds=bonds)))
-        a2 = Atoms.load(DocHandle(dict(atoms=atoms, bonds=bonds)), filetype='cml')
+        a = Atoms.load_cml(DocHandle(render(atoms, bonds, layout=layout)))
+        a2 = Atoms.load(DocHandle(render(atoms, bonds, layout=layout)), filetype='cml')
     else:
         enc = p.get('encoding', 'UTF-8')
-        text = render(atoms, bonds, encoding=enc, title=('m\u00e9thanol d\u00e9riv\u00e9' if enc != 'UTF-8' else None))
+        text = render(atoms, bonds, encoding=enc, title=('m\u00e9thanol d\u00e9riv\u00e9' if enc != 'UTF-8' else None), layout=layout)
         # (a document declaring a two-byte encoding cannot be parsed from decoded text by expat: it is only loaded by path)
         text_mode_ok = enc.upper() != 'UTF-16'
         a = Atoms.load_cml(io.StringIO(text)) if text_mode_ok else None
@@ -177,6 +206,12 @@ def body(ctx, p):
                     ctx.require(f'{tag}: bond joins the atoms named by its references',
                                 AND(EQ(obj.bonds[j][0], ends[j][0]), EQ(obj.bonds[j][1], ends[j][1])), detail=dict(bond=j))
         ctx.require(f'{tag}: consistent object', lengths_consistent(obj))
+
+
+def hint_inputs(ctx, p):
+    """awkward coordinate values (small, large, negative, many digits): tried on the real code when a solver witness does not reproduce"""
+    vals = [1.25e-4, -3.0517578125e-05, 12345.678901234567, -0.1, 2.5e-7, 1e3, -7.000000000000001, 0.30000000000000004, 5e-324 * 0 + 6.02e-23]
+    return [{f"x{i}{c}": vals[(3 * i + k + r) % len(vals)] for i in range(p['n']) for k, c in enumerate('xyz')} for r in range(2)]
 
 
 SELFTESTS = [
